@@ -80,19 +80,32 @@ def configure(repo=None, work=None):
     cfg = os.path.join(work, "cfg")
     stamp = os.path.join(work, "cfg.stamp")
     want = _cfg_inputs_hash(repo) + ":" + repo
-    have = None
-    if os.path.exists(stamp) and os.path.exists(os.path.join(cfg, "build.ninja")):
-        have = open(stamp).read().strip()
-    if have != want:
-        if os.path.exists(cfg):
-            subprocess.run(["rm", "-rf", cfg], check=True)
-        r = subprocess.run(["cmake", "-S", repo, "-B", cfg, "-G", "Ninja",
-                            "-DCMAKE_BUILD_TYPE=Debug"],
-                           stdout=subprocess.PIPE, stderr=subprocess.STDOUT)
-        if r.returncode != 0:
-            raise AnalysisBroken("cmake configure failed:\n" + r.stdout.decode()[-2000:])
-        with open(stamp, "w") as f:
-            f.write(want)
+    def current():
+        if os.path.exists(stamp) and os.path.exists(os.path.join(cfg, "build.ninja")):
+            return open(stamp).read().strip()
+        return None
+    if current() != want:
+        # several checks may start side by side (the twenty registered commands, self-test workers): one of them configures,
+        # the others wait for it
+        import fcntl
+        with open(os.path.join(work, "cfg.lock"), "w") as lk:
+            fcntl.flock(lk, fcntl.LOCK_EX)
+            try:
+                if current() != want:
+                    if os.path.exists(stamp):
+                        os.unlink(stamp)
+                    if os.path.exists(cfg):
+                        subprocess.run(["rm", "-rf", cfg], check=True)
+                    r = subprocess.run(["cmake", "-S", repo, "-B", cfg, "-G", "Ninja",
+                                        "-DCMAKE_BUILD_TYPE=Debug"],
+                                       stdout=subprocess.PIPE, stderr=subprocess.STDOUT)
+                    if r.returncode != 0:
+                        raise AnalysisBroken("cmake configure failed:\n" + r.stdout.decode()[-2000:])
+                    with open(stamp + ".tmp", "w") as f:
+                        f.write(want)
+                    os.replace(stamp + ".tmp", stamp)
+            finally:
+                fcntl.flock(lk, fcntl.LOCK_UN)
     return cfg
 
 
